@@ -246,6 +246,19 @@ def _run(rec, rng, sim, R, srv, asyncm, path, V, case):
                 sim.quiesce()
         sim.quiesce()
     else:
+        if fate == 'alive' and not whole_reject and len(pieces) < 14 and \
+                case['i'] % 2 == 0:
+            # payloads that contain the two characters backslash + n (a
+            # Windows path; JSON text with an escaped newline inside a
+            # string): they are data like any other, in the plain body and in
+            # its form-encoded variant
+            for wire, data in (('4C:\\new\\table', 'C:\\new\\table'),
+                               ('4{"t":"line1\\nline2"}',
+                                {'t': 'line1\nline2'})):
+                pieces.append(wire)
+                expect.append(('message', data))
+                expect_all.append(('message', data))
+            rec.count('payloads_with_backslash_n')
         body = gen.SEP.join(pieces)
         if rng.random() < 0.25:
             # the form-encoded variant of the same body (what a JSONP client
